@@ -12,7 +12,7 @@
 (*   [ev, r, k, n, b, rs]   (event, run, kind, number, flag, list of runs) *)
 (* Several sessions are concatenated with "reset" lines.                   *)
 (***************************************************************************)
-EXTENDS ATP, Json, IOUtils
+EXTENDS ATPServerEnv, Json, IOUtils
 
 Trace == ndJsonDeserialize(IOEnv.VERIF_TRACE)
 VARIABLE l
@@ -143,7 +143,8 @@ TC2SRead ==
 TRecv ==
     /\ Is("s.recv")
     /\ IF Ev.b THEN SrvDecodeErr
-       ELSE SrvDecode /\ smsg'.t = MsgOfId(Ev.n) /\ smsg'.r = R
+       ELSE /\ SrvDecode
+            /\ smsg'.t \in {"bad", "wsbad"} \/ (smsg'.t = MsgOfId(Ev.n) /\ smsg'.r = R)
 TStart == Is("s.start") /\ SrvHandle /\ smsg.t = "ws" /\ smsg.r = R /\ step'[R] = "run"
 TSignal == Is("s.signal") /\ SrvHandle /\ smsg.t = "sig" /\ smsg.r = R /\ sigg'[R] = "run"
 \* the server's input is closed: by the run loop on client-done (SrvHandle), or by the closure handler
@@ -159,7 +160,7 @@ TStdinClose ==
 Silent ==
     /\ l' = l
     /\ \/ \E r \in Runs : StepFail(r)
-       \/ \E r \in BadSigRuns : SigFinish(r)
+       \/ \E r \in Runs : SigFinishAs(r, TRUE)
        \/ SrvErrSend
        \/ (spc = "handle" /\ smsg.t \notin {"ws", "cd"} /\ ~(smsg.t = "sig" /\ smsg.r \in Runs /\ accepted[smsg.r] > 0) /\ SrvHandle)
        \/ SrvRunExit \/ SrvLateClose
@@ -179,7 +180,7 @@ TStepEnd ==
 TStepPanic == Is("s.step.panic") /\ StepFinishAs(R, "panic")
 TSigDone ==
     /\ Is("s.sig.done")
-    /\ IF R \in BadSigRuns THEN sigg[R] = "done" /\ UNCHANGED vars ELSE SigFinish(R)
+    /\ IF sigg[R] = "run" THEN SigFinishAs(R, FALSE) ELSE UNCHANGED vars
 TSrvSend ==
     /\ Is("s.send")
     /\ IF Ev.n = 2 THEN StepLock(R) ELSE HLock /\ hmsg.r = R
@@ -197,8 +198,19 @@ THRecv ==
 THExit == Is("s.closure.exit") /\ Ev.k = "closed" /\ HClosed
 TReturn == Is("s.return") /\ SrvReturn
 
+\* ------------------------------------------------------------------ scripted client (C07 sessions)
+TEnvWrite ==
+    /\ Is("e.write")
+    /\ EnvSend(Msg(Ev.k, R, ""), Ev.b)
+TEnvEOF == Is("e.eof") /\ IF Ended \/ stdinClosed THEN UNCHANGED vars ELSE EnvEOF
+TEnvRead ==
+    /\ Is("e.read")
+    /\ Len(s2c) >= Ev.n
+    /\ s2c' = SubSeq(s2c, Ev.n + 1, Len(s2c))
+    /\ UNCHANGED <<cvars, c2s, stdinClosed, outClosed, svars>>
+
 TNext ==
-    /\ \/ TReset \/ Silent
+    /\ \/ TReset \/ Silent \/ TEnvWrite \/ TEnvEOF \/ TEnvRead
        \/ TExec \/ TRegister \/ TSend \/ TC2SWrite \/ TSent \/ TWait \/ TTake \/ TS2CRead \/ TDecode
        \/ TDeliver \/ TErrMsg \/ TUnknown \/ TSigFwd \/ TDeliverAll \/ TCheck \/ TLoopExit
        \/ TWBegin \/ TWExit \/ TCloseDone \/ TCloseRet
